@@ -29,7 +29,11 @@ import threading
 res = {}
 def b(v):
     res[v] = vlib.build_harness(v)
+import pywheel
+def w():
+    res["wheel"] = pywheel.build_wheel()      # the wheel's native module (C26, C27, C28)
 ths = [threading.Thread(target=b, args=(v,)) for v in ("default", "nofast", "instr", "release")]
+ths.append(threading.Thread(target=w))
 for t in ths: t.start()
 for t in ths: t.join()
 for v, (ok, out) in res.items():
